@@ -321,9 +321,15 @@ func (a *Alerts) Put(ctx context.Context, alerts ...*types.Alert) error {
 		if old, err := a.alerts.Get(fp); err == nil {
 			existing = true
 
-			// Merge alerts if there is an overlap in activity range.
+			// Merge alerts if there is an overlap in activity range. An
+			// update whose range covers the stored one overlaps it, too:
+			// when it is the younger one merging equals replacing, but
+			// updates can arrive out of order, and an older covering
+			// update must still contribute its earlier start instead of
+			// being dropped as outdated.
 			if (alert.EndsAt.After(old.StartsAt) && alert.EndsAt.Before(old.EndsAt)) ||
-				(alert.StartsAt.After(old.StartsAt) && alert.StartsAt.Before(old.EndsAt)) {
+				(alert.StartsAt.After(old.StartsAt) && alert.StartsAt.Before(old.EndsAt)) ||
+				(!alert.StartsAt.After(old.StartsAt) && !alert.EndsAt.Before(old.EndsAt)) {
 				alert = old.Merge(alert)
 			}
 		}
